@@ -91,6 +91,8 @@ def global_mutations(ctx: Ctx, rule: str):
             elif isinstance(st, ast.AnnAssign) and isinstance(st.target, ast.Name):
                 module_names.add(st.target.id)
             elif isinstance(st, (ast.Import, ast.ImportFrom)):
+                if isinstance(st, ast.ImportFrom) and st.module == "__future__":
+                    continue  # compiler directives, not objects of the module
                 for a in st.names:
                     module_names.add((a.asname or a.name).split(".")[0])
         locals_ = set(f.params)
@@ -120,6 +122,24 @@ def global_mutations(ctx: Ctx, rule: str):
             elif isinstance(nd, ast.NamedExpr) and isinstance(nd.target, ast.Name):
                 locals_.add(nd.target.id)
                 aliases[nd.target.id] = "<local value>"
+            elif isinstance(nd, ast.AnnAssign) and isinstance(nd.target, ast.Name):
+                # an annotated assignment binds a local like a plain one (a bare annotation declares one)
+                locals_.add(nd.target.id)
+                if isinstance(nd.value, ast.Name) and nd.value.id in module_names:
+                    aliases.setdefault(nd.target.id, nd.value.id)
+                else:
+                    aliases[nd.target.id] = "<local value>"
+            elif isinstance(nd, ast.ExceptHandler) and nd.name:
+                locals_.add(nd.name)
+                aliases[nd.name] = "<local value>"
+            elif isinstance(nd, (ast.Import, ast.ImportFrom)):
+                for a_ in nd.names:
+                    nm_ = (a_.asname or a_.name).split(".")[0]
+                    locals_.add(nm_)
+                    aliases[nm_] = "<local value>"
+            elif isinstance(nd, (ast.FunctionDef, ast.ClassDef)) and nd is not f.node:
+                locals_.add(nd.name)
+                aliases[nd.name] = "<local value>"
 
         def global_root(node) -> str | None:
             root = node
